@@ -78,6 +78,17 @@ pub(crate) fn remove_all<Fd: AsFd>(dirfd: Fd, name: &Path) -> Result<(), Error> 
         })?;
     }
 
+    // rmdir(2) and unlink(2) refuse "." and ".." themselves, but the fallback
+    // below would happily open them with O_DIRECTORY and then delete the
+    // contents of the directory itself (or worse, of its *parent* -- which for
+    // a root handle is a directory outside of the root).
+    if matches!(name.as_os_str().as_bytes(), b"." | b"..") {
+        Err(ErrorImpl::InvalidArgument {
+            name: "path".into(),
+            description: "cannot remove_all a path whose final component is '.' or '..'".into(),
+        })?;
+    }
+
     // Fast path -- try to remove it with unlink/rmdir.
     if remove_inode(dirfd, name).ignore_enoent().is_ok() {
         return Ok(());
